@@ -147,6 +147,12 @@ class World:
             group = {'gSNP': 'Germline', 'gINDEL': 'Germline'}
         if r.random() < 0.2:
             group['SECT'] = 'AltTrans'; group['CodonReassign'] = 'AltTrans'
+        # a group mixing a structural source (fusion / circRNA / alternative splicing) with a small-variant source, e.g.
+        # "Somatic:sSNV,sFusion"
+        big = [x for x in ('Fusion', 'circRNA', 'AltSplice') if x in self.used and x not in group]
+        small = [x for x in ('gSNP', 'gINDEL', 'RNAEdit') if x in self.used and x not in group]
+        if r.random() < 0.35 and big and small:
+            group[r.choice(big)] = 'Mixed'; group[r.choice(small)] = 'Mixed'
         names = []
         for s in srcs:
             g = group.get(s, s)
